@@ -3,6 +3,7 @@
 // connectors, so the model is checked against the router's LIVE objects, never
 // against handles the session kept.
 #include "core.h"
+#include "sigs.h"
 #include "geom.h"
 #include "mix_gen.h"
 #include "libavoid/libavoid.h"
@@ -31,7 +32,7 @@ struct HyperSession : Session {
 
     std::string guarded(const std::function<void()> &fn) {
         try { LibScope ls; fn(); }
-        catch (vpsc::CriticalFailure &f) { HarnessScope hs; return fmt("assert@%s:%d", strstr(f.file, "lib") ? strstr(f.file, "lib") : f.file, f.line); }
+        catch (vpsc::CriticalFailure &f) { HarnessScope hs; return assertSig(f); }
         catch (std::exception &e) { return "std::exception"; }
         catch (...) { return "unknown-exception"; }
         return "";
